@@ -823,3 +823,11 @@ CHECKS['C11']['level_text'] = CHECKS['C11']['level_text'] + (" PLSET (Props/C11P
     "C11_plset_always_answered — every PLSET request gets at least one reply whatever its arguments, their number, the partition function and the outcome of the dispatch; "
     "C11_plset_one_reply_per_pair — an accepted one gets exactly one reply per key/value pair and every argument is in a pair; tie: srvmerge op `plcount` compares the number of replies "
     "of the real server (in-process, mem and tcp connections, 1-8 partitions, 0-9 arguments) with the executable model.")
+
+# C07: the flush timing of the HyperLogLog write-back cache is invisible to DEL / existence (Gen/HllDel.lean, Props/C07HllDel.lean)
+_p = CHECKS['C07']['props']
+CHECKS['C07']['props'] = (_p if isinstance(_p, list) else [_p]) + ['ZanVerif.Props.C07HllDel']
+CHECKS['C07']['gens'] = list(CHECKS['C07'].get('gens', [])) + ['HllDel']
+CHECKS['C07']['level_text'] = CHECKS['C07']['level_text'] + (" HLL CACHE (Props/C07HllDel over the regenerated reply rule of kvDel, fix aee65e1): C07_hll_flush_timing_invisible — two replicas with the same logical keys "
+    "that apply the same PFADD / DEL / existence commands with flushes of the write-back cache (snapshot, restart, eviction) at any points of their own give the same replies; "
+    "tie: data op pfwin runs PFADD / DEL / PFCOUNT with and without a flush in between on the real store.")
